@@ -1,5 +1,5 @@
 #!/venv/bin/python
-"""Held-out evaluation: round-3 corpus (names *c-N breaking, *-ok4/-ok5 benign) or, with HELDOUT_ROUND=4, round 4 (*d-N, *-ok6/-ok7), materialised under /tmp/variants_r<round>.
+"""Held-out evaluation: round-3 corpus (names *c-N breaking, *-ok4/-ok5 benign) or, with HELDOUT_ROUND=4..7, a later round (7: heldout7/, measured only), materialised under /tmp/variants_r<round>.
 usage: tools/heldout.py prepare | run [PROP,PROP...]"""
 import glob, json, os, subprocess, sys
 from concurrent.futures import ThreadPoolExecutor
@@ -11,21 +11,23 @@ sweep = importlib.util.module_from_spec(spec); spec.loader.exec_module(sweep)
 ALL = ["C%02d" % i for i in range(1, 21)]
 
 ROUND = os.environ.get("HELDOUT_ROUND", "3")
-PATTERNS = {"6": ("*f-[0-9]", "*-ok1[01]"), "3": ("*c-[0-9]", "*-ok[45]"), "4": ("*d-[0-9]", "*-ok[67]"), "5": ("*e-[0-9]", "*-ok[89]")}[ROUND]
+PATTERNS = {"7": ("*g-[0-9]", "*-ok12"), "6": ("*f-[0-9]", "*-ok1[01]"), "3": ("*c-[0-9]", "*-ok[45]"), "4": ("*d-[0-9]", "*-ok[67]"), "5": ("*e-[0-9]", "*-ok[89]")}[ROUND]
 V3 = "/tmp/variants_r" + ROUND
+# round 7 was measured only (never merged into the replay corpora): its changes live under heldout7/
+SRC = os.path.join(here, "heldout7") if ROUND == "7" else here
 
 
 def names():
-    s = sorted(os.path.basename(d) for d in glob.glob(os.path.join(here, "seeded", PATTERNS[0])))
-    b = sorted(os.path.basename(d) for d in glob.glob(os.path.join(here, "benign", PATTERNS[1])))
+    s = sorted(os.path.basename(d) for d in glob.glob(os.path.join(SRC, "seeded", PATTERNS[0])))
+    b = sorted(os.path.basename(d) for d in glob.glob(os.path.join(SRC, "benign", PATTERNS[1])))
     return s, b
 
 def prepare():
     s, b = names()
     for kind, ns in (("seeded", s), ("benign", b)):
         for n in ns:
-            meta = json.load(open(os.path.join(here, kind, n, "meta.json")))
-            sweep.materialise(os.path.join(V3, kind, n), meta["base"], os.path.join(here, kind, n, "patch.diff"))
+            meta = json.load(open(os.path.join(SRC, kind, n, "meta.json")))
+            sweep.materialise(os.path.join(V3, kind, n), meta["base"], os.path.join(SRC, kind, n, "patch.diff"))
     print(len(s), "seeds", len(b), "benign")
 
 def check(prop, root, tag):
@@ -44,7 +46,7 @@ def run(props):
     s, b = names()
     jobs = []
     for n in s:
-        p = json.load(open(os.path.join(here, "seeded", n, "meta.json")))["breaks_property"]
+        p = json.load(open(os.path.join(SRC, "seeded", n, "meta.json")))["breaks_property"]
         if p in props:
             jobs.append(("seed", n, p))
     for n in b:
